@@ -1,0 +1,25 @@
+//go:build verif
+
+package decoder
+
+import (
+	"github.com/hashicorp/hcl-lang/decoder/internal/schemahelper"
+	"github.com/hashicorp/hcl-lang/schema"
+	"github.com/hashicorp/hcl/v2"
+)
+
+// VerifSetMaxCandidates overrides the completion candidate limit of this
+// PathDecoder. It exists only in builds with the "verif" tag and lets a
+// runtime monitor obtain the untruncated candidate population from the real
+// completion code.
+func (d *PathDecoder) VerifSetMaxCandidates(n uint) {
+	d.maxCandidates = n
+}
+
+// VerifEffectiveBodySchema exposes the effective (static + dependent) body
+// schema the decoder derives for a block, together with the numeric value of
+// the lookup result. It exists only in builds with the "verif" tag.
+func VerifEffectiveBodySchema(block *hcl.Block, bs *schema.BlockSchema) (*schema.BodySchema, int) {
+	merged, result := schemahelper.MergeBlockBodySchemas(block, bs)
+	return merged, int(result)
+}
